@@ -797,6 +797,65 @@ func paramList() ([]int, bool) {
 	return res, ok
 }
 
+// closeSites: the Close calls of the socket-owning routines are where the model (coq/model/Res.v) has them:
+// sendUnicast calls Close directly, sendARPPing and sendMessage defer it, and catchARPReply, server Run and
+// catchReply start a goroutine that waits for ctx.Done() and then closes, and defer the cancel of that context.
+func closeSites() bool {
+	has := func(rel, fn string, pred func(n ast.Node) bool) bool {
+		fd := findFunc(rel, fn)
+		if fd == nil {
+			return false
+		}
+		found := false
+		ast.Inspect(fd, func(n ast.Node) bool {
+			if n != nil && pred(n) {
+				found = true
+			}
+			return !found
+		})
+		return found
+	}
+	isClose := func(e ast.Expr) bool {
+		c, ok := e.(*ast.CallExpr)
+		return ok && strings.HasSuffix(selName(c.Fun), ".Close")
+	}
+	direct := func(n ast.Node) bool { e, ok := n.(*ast.ExprStmt); return ok && isClose(e.X) }
+	deferred := func(n ast.Node) bool { d, ok := n.(*ast.DeferStmt); return ok && isClose(d.Call) }
+	deferCancel := func(n ast.Node) bool {
+		d, ok := n.(*ast.DeferStmt)
+		return ok && strings.HasSuffix(selName(d.Call.Fun), "cancel")
+	}
+	closer := func(n ast.Node) bool {
+		g, ok := n.(*ast.GoStmt)
+		if !ok {
+			return false
+		}
+		fl, ok := g.Call.Fun.(*ast.FuncLit)
+		if !ok || len(fl.Body.List) != 2 {
+			return false
+		}
+		w, ok1 := fl.Body.List[0].(*ast.ExprStmt)
+		c, ok2 := fl.Body.List[1].(*ast.ExprStmt)
+		if !ok1 || !ok2 || !isClose(c.X) {
+			return false
+		}
+		u, ok := w.X.(*ast.UnaryExpr)
+		if !ok || u.Op != token.ARROW {
+			return false
+		}
+		dc, ok := u.X.(*ast.CallExpr)
+		return ok && strings.HasSuffix(selName(dc.Fun), ".Done")
+	}
+	return has("lib/server/utils.go", "sendUnicast", direct) &&
+		has("lib/arpping/arpping.go", "sendARPPing", deferred) &&
+		has("lib/client/dclient/netio.go", "sendMessage", deferred) &&
+		has("lib/arpping/arpping.go", "catchARPReply", closer) && has("lib/arpping/arpping.go", "catchARPReply", deferCancel) &&
+		has("lib/arpping/arpping.go", "Ping", deferCancel) &&
+		has("lib/server/run.go", "Run", closer) && has("lib/server/run.go", "Run", deferCancel) &&
+		has("lib/client/dclient/netio.go", "catchReply", closer) && has("lib/client/dclient/netio.go", "catchReply", deferCancel) &&
+		has("lib/client/dclient/dclient.go", "advanceState", deferCancel)
+}
+
 func main() {
 	if len(os.Args) != 3 {
 		fmt.Fprintln(os.Stderr, "usage: gofacts <repo> <out.v>")
@@ -881,11 +940,21 @@ func main() {
 	setN("gf_min_t1_ns", r, ok, 60e9)
 	r, ok = callArg("lib/client/dclient/sysstates.go", "panicReset", "WithTimeout", 1, 0)
 	setN("gf_panic_reset_ns", r, ok, 30e9)
+	// C19: socket/goroutine accounting
+	r, ok = forBound("lib/client/dclient/netio.go", "sendSocket")
+	setN("gf_client_arp_tries", r, ok, 5)
+	r, ok = callArg("lib/arpping/arpping.go", "sendARPPing", "After", 0, 0)
+	setN("gf_arp_resend_ns", r, ok, 1e9)
+	r, ok = callArg("lib/client/dclient/dclient.go", "Run", "Sleep", 0, 0)
+	setN("gf_limiter_sleep_ns", r, ok, 20e9)
+	r, ok = callArg("lib/client/dclient/dclient.go", "New", "NewLimiter", 1, 0)
+	setN("gf_limiter_burst", r, ok, 10)
 
 	facts := map[string]bool{
 		"gf_ipdb_methods_locked":      ipdbLocked(),
 		"gf_handler_started_by_value": handlerByValue(),
 		"gf_resolv_update_order":      updateOrder(),
+		"gf_res_close_sites":          closeSites(),
 		// the database steps of the two handlers, as the model has them
 		"gf_discover_single_db_step": dbCalls("handleDiscover") == "OfferIP",
 		"gf_request_db_steps":        dbCalls("handleRequest") == "InManagedRange,LookupClientByDuid,HoldClient,UpdateClient",
